@@ -47,7 +47,8 @@ impl Property for C04 {
          nonce sign (z -/+ 2(d + rho e)), plus a cancelling variant (errors summing to zero) for every subset of size \
          >= 2; each (session, cheater set, variant) is run through Disabled / FirstCheater / AllCheaters aggregation and the standalone \
          share verification and compared with the reference model on scalars; per session additionally a re-randomized session \
-         (frost-rerandomized aggregate / aggregate_custom) with every single cheater, everybody and sampled subsets. One evaluation per (session, cheater set, variant). \
+         (frost-rerandomized aggregate / aggregate_custom) with every single cheater, everybody and sampled subsets, and for the Taproot suite \
+         a session signed and aggregated with the BIP-341 tweak (aggregate_with_tweak, root present / absent) likewise. One evaluation per (session, cheater set, variant). \
          non-trivial = anything but the suite's two cases (two lowest cheat by +1; highest cheats by +1); distinct = distinct \
          (suite, n, t, |S|, cheater positions, kinds, cancelling?, parities) tuples"
             .into()
@@ -108,6 +109,7 @@ impl Property for C04 {
             ("all-shares-valid-but-sum-invalid".into(), m),
             ("rerandomized".into(), m),
             ("kind:nonce-sign-flipped".into(), m),
+            ("tr:tweaked-aggregation".into(), m),
             ("tr:key-odd,R-odd".into(), 5),
             ("tr:key-odd,R-even".into(), 5),
             ("tr:key-even,R-odd".into(), 5),
@@ -356,6 +358,64 @@ fn check<C: Suite>(case: &Case, ctx: &mut Ctx) -> CheckResult {
                     &rpk,
                     &|md| rr::aggregate_custom::<C>(&package, &sub2, &f.keys.pubkeys, md, &params),
                     &|| rr::aggregate::<C>(&package, &sub2, &f.keys.pubkeys, &params),
+                    &cheaters,
+                    dz,
+                    &msg,
+                    &desc,
+                    "C04",
+                )?;
+            }
+        }
+    }
+
+    // ---- Taproot: the tweaked aggregation entry point (aggregate_with_tweak, with and without a script-tree root, for
+    // internal keys of either parity) obeys the same model: every single cheater, everybody, sampled subsets
+    if C::SID.taproot() {
+        let root: Option<Vec<u8>> = if rng.below(2) == 1 { Some(rng.bytes(32)) } else { None };
+        let root_ref = root.as_deref();
+        let tpk = C::tr_tweak_pubkeys(&f.keys.pubkeys, root_ref);
+        let (nonces, comms) = commit_all::<C>(&f.keys.kps, &signers, rng.next());
+        let package = SigningPackage::new(comms, &msg);
+        let mut shares = BTreeMap::new();
+        for id in &signers {
+            match C::tr_sign_with_tweak(&package, &nonces[id], &f.keys.kps[id], root_ref).unwrap() {
+                Ok(s) => {
+                    shares.insert(*id, s);
+                }
+                Err(e) => return ctx.fail("C04/tweaked-honest-sign-failed", format!("sign_with_tweak failed for an honest signer: {e:?}")),
+            }
+        }
+        let mut masks: Vec<u32> = (0..m.min(20)).map(|i| 1u32 << i).collect();
+        masks.push(((1u64 << m.min(20)) - 1) as u32);
+        for _ in 0..3 {
+            let x = (rng.next() as u32) & (((1u64 << m.min(20)) - 1) as u32);
+            if x != 0 {
+                masks.push(x);
+            }
+        }
+        for mask in masks {
+            let cheat_pos: Vec<usize> = (0..m.min(20)).filter(|i| mask >> i & 1 == 1).collect();
+            for cancelling in [false, true] {
+                if cancelling && cheat_pos.len() < 2 {
+                    continue;
+                }
+                // "other-session" faults take the share from the untweaked session of the same signers
+                let (sub2, kinds) = tamper_shares::<C>(&shares, &f.sess.shares, &signers, &cheat_pos, cancelling, &mut rng);
+                let (cheaters, dz) = model::<C>(&shares, &sub2);
+                if cheaters.is_empty() {
+                    ctx.discard();
+                    continue;
+                }
+                ctx.eval(&format!("{},{},{},tweaked,{},{:b},{:?},{}", shape.n, shape.t, m, root.is_some(), mask, kinds, parity), true);
+                ctx.label("tr:tweaked-aggregation");
+                let desc = format!("Taproot session signed and aggregated with the tweak (root {}), internal {parity}, n={} t={} |S|={} cheaters(pos)={:?} kinds={:?}", if root.is_some() { "present" } else { "absent" }, shape.n, shape.t, m, cheat_pos, kinds);
+                judge_with::<C>(
+                    ctx,
+                    &package,
+                    &sub2,
+                    &tpk,
+                    &|md| frost::aggregate_custom(&package, &sub2, &tpk, md),
+                    &|| C::tr_aggregate_with_tweak(&package, &sub2, &f.keys.pubkeys, root_ref).unwrap(),
                     &cheaters,
                     dz,
                     &msg,
